@@ -66,11 +66,11 @@ func init() {
 
 func isPullConnCall(ins ssa.Instruction, method string) bool {
 	cc := callCommon(ins)
-	if cc == nil || cc.StaticCallee() == nil || cc.StaticCallee().Name() != method || len(cc.Args) == 0 {
+	if cc == nil || cc.StaticCallee() == nil || baseFuncName(cc.StaticCallee()) != method || len(cc.Args) == 0 {
 		return false
 	}
 	f, base, ok := fieldLoad(cc.Args[0])
-	return ok && f.Name() == "conn" && typeIs(base.Type(), modRel("service/rtsp"), "PullClient")
+	return ok && theProgram.baseFieldName(f) == "conn" && typeIs(base.Type(), modRel("service/rtsp"), "PullClient")
 }
 
 func ruleReadHasDeadline(c *Ctx) {
@@ -166,19 +166,38 @@ func ruleOpenFailDisconnects(c *Ctx) {
 	c.touched(fname(fn))
 	var conn ssa.Instruction
 	steps := map[string]ssa.Instruction{}
+	order := []string{"connect", "requestHandshake", "requestSDP", "requestSetup", "requestPlay"}
+	tableOrder := true
 	instrs(fn, func(ins ssa.Instruction) {
 		cc := callCommon(ins)
-		if cc == nil || cc.StaticCallee() == nil {
+		if cc == nil {
 			return
 		}
-		switch cc.StaticCallee().Name() {
-		case "connect":
-			conn = ins
-			steps["connect"] = ins
-		case "requestHandshake", "requestSDP", "requestSetup", "requestPlay":
-			steps[cc.StaticCallee().Name()] = ins
+		var callees []*ssa.Function
+		if cc.StaticCallee() != nil {
+			callees = []*ssa.Function{cc.StaticCallee()}
+		} else if _, isCall := ins.(*ssa.Call); isCall {
+			// table-driven form: the steps are called through a local array of method values in range order
+			callees = tableCallees(cc)
+			for i, f := range callees {
+				if i >= len(order) || baseFuncName(f) != order[i] {
+					tableOrder = false
+				}
+			}
+		}
+		for _, f := range callees {
+			switch baseFuncName(f) {
+			case "connect":
+				conn = ins
+				steps["connect"] = ins
+			case "requestHandshake", "requestSDP", "requestSetup", "requestPlay":
+				steps[baseFuncName(f)] = ins
+			}
 		}
 	})
+	if !tableOrder {
+		c.Bad("open:step-order", p.Pos(fn.Pos()), "the table of handshake steps is not connect, OPTIONS, DESCRIBE, SETUP, PLAY in this order")
+	}
 	if conn == nil || len(steps) != 5 {
 		c.Lost("Open.steps", fmt.Sprintf("expected connect + 4 handshake steps, found %d", len(steps)))
 		return
@@ -261,7 +280,6 @@ func ruleOpenFailDisconnects(c *Ctx) {
 		}
 		c.Decide(stored, "open:step-error-in-result:"+name, p.InstrPos(ins), "step error assigned to the result the deferred cleanup inspects", "the error of "+name+" is not assigned to Open's named error result: when this step fails the deferred cleanup sees a nil error and the camera connection (and half-built client state) is leaked")
 	}
-	order := []string{"connect", "requestHandshake", "requestSDP", "requestSetup", "requestPlay"}
 	for i := 0; i+1 < len(order); i++ {
 		a, b := steps[order[i]], steps[order[i+1]]
 		// b must be reachable only through the nil-error edge after a: a's block ends in an If on err != nil whose true edge does not reach b
@@ -278,7 +296,7 @@ func ruleOpenFailDisconnects(c *Ctx) {
 				}
 			}
 		}
-		c.Decide(okEdge && dominatesInstr(a, b), "open:stops-at-first-error:"+order[i], p.InstrPos(a), "a failing step ends Open", "after "+order[i]+" fails Open continues with "+order[i+1])
+		c.Decide(okEdge && (a == b || dominatesInstr(a, b)), "open:stops-at-first-error:"+order[i], p.InstrPos(a), "a failing step ends Open", "after "+order[i]+" fails Open continues with "+order[i+1])
 	}
 }
 
@@ -342,7 +360,7 @@ func rulePlayExitCleans(c *Ctx) {
 	instrs(df, func(ins ssa.Instruction) {
 		if callsFunc(ins, unreg) {
 			f, _, ok := fieldLoad(callCommon(ins).Args[0])
-			c.Decide(ok && f.Name() == "stream", "play-exit:unregist-own-stream", p.InstrPos(ins), "unregisters its own stream", "the cleanup unregisters something other than the client's own stream")
+			c.Decide(ok && theProgram.baseFieldName(f) == "stream", "play-exit:unregist-own-stream", p.InstrPos(ins), "unregisters its own stream", "the cleanup unregisters something other than the client's own stream")
 		}
 	})
 }
@@ -394,7 +412,7 @@ func ruleAuthRetriesBounded(c *Ctx) {
 				continue
 			}
 			if bo, ok := ifi.Cond.(*ssa.BinOp); ok {
-				if f, _, okf := fieldLoad(bo.X); okf && f.Name() == "StatusCode" {
+				if f, _, okf := fieldLoad(bo.X); okf && theProgram.baseFieldName(f) == "StatusCode" {
 					if k, okk := evalInt(bo.Y); okk && (k == 200 || k == 300 || k == 299) {
 						okStatus = true
 					}
@@ -472,7 +490,7 @@ func ruleFactoryFailsClosed(c *Ctx) {
 			}
 			return
 		}
-		if call, ok := src.(*ssa.Call); ok && call.Call.StaticCallee() != nil && call.Call.StaticCallee().Name() == "Get" {
+		if call, ok := src.(*ssa.Call); ok && call.Call.StaticCallee() != nil && baseFuncName(call.Call.StaticCallee()) == "Get" {
 			return
 		}
 		if ex, ok := src.(*ssa.Extract); ok && ex.Index == 0 {
@@ -495,7 +513,7 @@ func ruleSDPFormatGuarded(c *Ctx) {
 					return
 				}
 				f, base, ok := fieldLoad(ia.X)
-				if !ok || f.Name() != "Format" || !typeIs(base.Type(), "github.com/pixelbender/go-sdp/sdp", "Media") {
+				if !ok || theProgram.baseFieldName(f) != "Format" || !typeIs(base.Type(), "github.com/pixelbender/go-sdp/sdp", "Media") {
 					return
 				}
 				n++
